@@ -316,14 +316,19 @@ Example C01_nonvacuous_history :
   let i2 := Stack [[[1;1];[0;0];[0;1]]; [[0;0];[0;0];[0;0]]; [[0;1];[1;0];[1;0]]] in
   let c3 := Cfg FRACTIONAL DFloat 2 3 true [1] 1 3 1 3 1 true in
   let i3 := Stack [[[1];[2];[0]]] in
+  let warm_read c i perm req :=
+    match construct c i perm with
+    | Ok st => Some (map (cached_frame st) (zrange (zlen (s_meta st))),
+                     read_combined (frame_getter false true st) st req false false)
+    | Err _ => None
+    end in
   combinable c1 i1 = true /\ combinable c1 i2 = false /\ combinable c3 i3 = false /\
+  valid c1 i1 = true /\ valid c1 i2 = true /\ valid c3 i3 = true /\
   expected_labels c1 i1 = [[1;0;2]; [0;0;0]; [2;1;1]] /\
-  (exists st, construct c1 i1 [2;0;1] = Ok st /\
-     map (cached_frame st) (zrange 4) = [[0;1;1]; [1;0;0]; [1;0;0]; [0;0;1]] /\
-     read_combined (frame_getter false true st) st [0;1;2] false false = Ok [[1;0;2]; [0;0;0]; [2;1;1]]) /\
-  (exists st, construct c1 i2 [2;0;1] = Ok st /\
-     read_combined (frame_getter false true st) st [0;1;2] false false = Err "RuntimeError") /\
-  (exists st, construct c3 i3 [0] = Ok st /\
-     read_combined (frame_getter false true st) st [0] false false = Err "ValueError").
-Proof. vm_compute. repeat split; eexists; repeat split. Qed.
+  warm_read c1 i1 [2;0;1] [0;1;2]
+    = Some ([[0;1;1]; [1;0;0]; [1;0;0]; [0;0;1]], Ok [[1;0;2]; [0;0;0]; [2;1;1]]) /\
+  warm_read c1 i2 [2;0;1] [0;1;2]
+    = Some ([[0;1;1]; [1;0;0]; [1;0;0]; [1;0;1]], Err "RuntimeError") /\
+  warm_read c3 i3 [0] [0] = Some ([[2;3;0]], Err "ValueError").
+Proof. vm_compute. repeat split. Qed.
 Print Assumptions C01_nonvacuous_history.
